@@ -94,6 +94,8 @@ HOSTILE = [
     ("adjacent-stems", 8, [(1, 2), (3, 4), (5, 6), (7, 8)]),
     ("H-type", 10, [(1, 6), (2, 5), (4, 9)]),
     ("H-type-short-first", 12, [(1, 5), (3, 10), (4, 9), (8, 12)]),
+    ("short-first-1-3", 10, [(1, 6), (3, 10), (4, 9), (5, 8)]),
+    ("short-first-2-4", 16, [(1, 9), (2, 8), (4, 16), (5, 15), (6, 14), (7, 13)]),
     ("kissing", 16, [(1, 8), (2, 7), (4, 13), (5, 12), (10, 16), (11, 15)]),
     ("triple-cross", 6, [(1, 4), (2, 5), (3, 6)]),
     ("triangle-short-first", 14, [(1, 7), (3, 10), (4, 9), (5, 13), (6, 12), (8, 14)]),
